@@ -143,6 +143,8 @@ CONTRACTS[F + 'SupSelChoiceOptionMapping.resolve'] = dict(
     ensures={
         'inactive-source-choice-takes-the-none-entry': ('property', 'implies(not active(), final_sup_tgt_option_node == self._mapping[None])'),
         'taken-option-decides': ('property', f'implies(active(), forall(j, 0, len({ITEMS}), implies(taken(j), final_sup_tgt_option_node == {ITEMS}[j][1])))'),
+        # the mapping serves every later resolution as well (the frame says the same; this clause is the executable form)
+        'mapping-left-as-it-was': ('property', f'len({ITEMS}) == len(old({ITEMS})) and forall(j, 0, len({ITEMS}), {ITEMS}[j][0] == old({ITEMS})[j][0] and {ITEMS}[j][1] == old({ITEMS})[j][1])'),
     },
     modifies=[],
     unchanged_on_raise=False,
